@@ -7,6 +7,7 @@ import (
 	"strings"
 	"time"
 
+	"github.com/sirupsen/logrus"
 	"github.com/spali/go-rscp/rscp"
 )
 
@@ -192,7 +193,18 @@ func init() {
 				return fmt.Sprintf("ok=%s crc=%s cfgsame=%s", oks, strings.Join(crcs, ","), same)
 			}
 			cfg := parseCfg(c)
+			// "no configuration causes a panic" whatever the package logger's level: the same call once more at the most verbose level
+			// (a panic there is reported through the case's recovered panic; the outcome must be the same)
 			cl, err := rscp.NewClient(cfg)
+			func() {
+				old := rscp.Log.GetLevel()
+				rscp.Log.SetLevel(logrus.TraceLevel)
+				defer rscp.Log.SetLevel(old)
+				_, err2 := rscp.NewClient(cfg)
+				if (err == nil) != (err2 == nil) {
+					panic("creating a client succeeds or fails depending on the log level")
+				}
+			}()
 			if err != nil {
 				msg := err.Error()
 				if strings.Contains(msg, "UseChecksum") {
